@@ -36,13 +36,17 @@
  *     Does nothing.
  *
  * Params:
- *     result: (ignored)
+ *     result: pointer to string, to write the (empty) result into
  *     arg:    (ignored)
  *
  * Return:
  *     number of characters in the returned string, or SNOOPY_DATASOURCE_FAILURE
  */
-int snoopy_datasource_noop (__attribute__((unused)) char * const resultBuf, __attribute__((unused)) size_t resultBufSize, __attribute__((unused)) char const * const arg)
+int snoopy_datasource_noop (char * const resultBuf, size_t resultBufSize, __attribute__((unused)) char const * const arg)
 {
+    // "Nothing" is an empty string - do not hand the buffer back as it came
+    if (resultBufSize > 0) {
+        resultBuf[0] = '\0';
+    }
     return 0;
 }
